@@ -277,18 +277,30 @@ func mapAnnotations(ctx context.Context, as parser.Annotations, scope AnnoScope,
 	for _, a := range as {
 		if mapper := FindAnnotationMapper(a.Key, scope); mapper != nil {
 			con.Add(*a, mapper)
-		} else {
-			// no mapper found, just append it to the result
-			cur = append(cur, *a)
 		}
 	}
-	// process all the annotations under the mapper
-	for _, a := range con {
-		if c, n, err := a.inter.Map(ctx, a.cont, desc, opt); err != nil {
-			return nil, nil, nil, err
-		} else {
-			cur = append(cur, c...)
-			next = n
+	// keep the listed order (it decides which http source wins): the annotations produced by a
+	// mapper take the place of the first annotation that mapper handles
+	done := make([]bool, len(con))
+	for _, a := range as {
+		mapper := FindAnnotationMapper(a.Key, scope)
+		if mapper == nil {
+			// no mapper found, just append it to the result
+			cur = append(cur, *a)
+			continue
+		}
+		for i := range con {
+			if con[i].inter != mapper || done[i] {
+				continue
+			}
+			done[i] = true
+			// process all the annotations under the mapper
+			if c, n, err := con[i].inter.Map(ctx, con[i].cont, desc, opt); err != nil {
+				return nil, nil, nil, err
+			} else {
+				cur = append(cur, c...)
+				next = n
+			}
 		}
 	}
 	m, left := mergeAnnotations(cur, scope)
